@@ -60,6 +60,7 @@ var (
 	idsMsgCaps  = l(44, 45, 46)              // message caps (1,1) (0,0) (2,2)
 	tplMsgHdr   = l(1, 2, 3, 4, 5, 6, 7, 8, 9, 10, 12)
 	tplBoundary = l(28, 29, 30, 31, 32, 33, 34, 35, 36)
+	tplInterior = l(44, 45, 46, 47, 48, 49, 50, 51, 52, 53, 54, 55, 56)
 )
 
 func checkDefs() map[string]CheckDef {
@@ -74,6 +75,8 @@ func checkDefs() map[string]CheckDef {
 			each("H_resume", l(40, 41), tplBoundary, l(3), l(-1)),
 			each("H_resume", l(45), l(32, 34, 35), l(3), l(-1)),
 			each("H_resume", l(40, 41), l(37, 38, 39), l(2), l(-1)),
+			each("H_resume", l(41), tplInterior, l(3), l(-1)),
+			each("H_resume", l(44, 45), l(44, 45, 52, 53, 55), l(3), l(-1)),
 			each("H_resume", l(40, 44, 45), l(13), l(6), l(-1)),
 			each("H_resume", l(40, 45), l(14), l(5), l(-1)),
 			each("H_chain", l(40, 41), l(13), l(4, 5))),
@@ -95,7 +98,7 @@ func checkDefs() map[string]CheckDef {
 			each("H_resume", idsTok, l(0), l(7), l(-1)),
 			each("H_resume", idsURILists, l(0), l(6), l(-1)),
 			each("H_resume", l(5), l(23, 24, 25), l(5), l(-1)),
-			each("H_resume", l(5), l(26, 27), l(4), l(-1)),
+			each("H_resume", l(5), l(26, 27, 57), l(4), l(-1)),
 			each("H_resume_at", l(0, 2, 6, 11, 23, 30), l(6), l(1, 2)),
 			each("H_chain", l(0, 1, 2, 6, 8, 11, 23, 30, 34), l(0), l(5)),
 			each("H_resume", l(8, 16, 19), l(18, 19), l(4), l(-1)),
@@ -125,7 +128,7 @@ func checkDefs() map[string]CheckDef {
 			each("H_premature", l(41, 42, 43), tplMsgHdr, l(4)),
 			each("H_premature", l(41, 43), l(13), l(7)),
 			each("H_premature", l(41), tplBoundary, l(4)),
-			each("H_premature", l(41), l(37, 38, 39), l(2)), each("H_premature", l(12), l(40, 41, 42, 43), l(2))),
+			each("H_premature", l(41), l(37, 38, 39), l(2)), each("H_premature", l(41), tplInterior, l(4)), each("H_premature", l(12), l(40, 41, 42, 43), l(2))),
 		cat(each("H_premature", idsLoop, l(0), l(13)),
 			each("H_premature", idsNameAddr, l(0), l(10)),
 			each("H_premature", idsHdrLine, l(0), l(10)),
@@ -143,7 +146,7 @@ func checkDefs() map[string]CheckDef {
 			each("H_C04_parse", l(40, 43, 45), l(8)),
 			each("H_C04_msg", l(1, 3, 4, 9, 11), l(3), l(-1, 0, 1), l(-1, 0, 1)),
 			each("H_C04_msg", l(13), l(5), l(-1, 0), l(-1, 0)),
-			each("H_C04_msg", tplBoundary, l(3), l(-1, 0), l(0)),
+			each("H_C04_msg", tplBoundary, l(3), l(-1, 0), l(0)), each("H_C04_msg", tplInterior, l(3), l(-1), l(0)),
 			each("H_C04_msg", l(0), l(10), l(-1), l(-1)),
 			each("H_C04_lookup", seq(0, 6)), each("H_C04_lookup", l(9, 12, 14, 19, 20)),
 			each("H_C04_enums"),
@@ -163,7 +166,7 @@ func checkDefs() map[string]CheckDef {
 		cat(each("H_C05", l(1, 2, 3, 4, 5, 6, 7, 8, 9, 10, 11, 12), l(4), l(0)),
 			each("H_C05", l(13), l(7), l(0, 1)),
 			each("H_C05", l(14, 16), l(5), l(0)),
-			each("H_C05", tplBoundary, l(4), l(0)),
+			each("H_C05", tplBoundary, l(4), l(0)), each("H_C05", tplInterior, l(4), l(0)),
 			each("H_C05_chunk", l(1, 3, 5, 11, 12, 29, 32, 34, 35), l(3))),
 		cat(each("H_C05", l(1, 2, 3, 4, 5, 6, 7, 8, 9, 10, 11, 12), l(6), l(0, 1, 2)),
 			each("H_C05", l(13), l(9), l(0))),
@@ -204,7 +207,7 @@ func checkDefs() map[string]CheckDef {
 
 	add("C10",
 		cat(each("H_C10_cseq", seq(1, 21)), each("H_C10_uint", l(0, 1), seq(1, 21)), each("H_C10_status"),
-			each("H_C10_cexp", seq(1, 24)), each("H_C10_q", seq(0, 5)), each("H_C10_port", l(0, 1, 2, 3), seq(1, 8)), each("H_C10_port", l(0), seq(9, 22))),
+			each("H_C10_cexp", seq(1, 24)), each("H_C10_q", seq(0, 5)), each("H_C10_port", l(0, 1, 2, 3, 4, 5), seq(1, 8)), each("H_C10_port", l(0, 4), seq(9, 22))),
 		cat(each("H_C10_cseq", seq(22, 40)), each("H_C10_uint", l(0, 1), seq(22, 40)), each("H_C10_cexp", seq(25, 40)), each("H_C10_port", l(0, 1, 3), seq(23, 40))),
 		"every numeric position with all digit strings of length 1..21/24 (40): CSeq, Expires, Content-Length, reply status, Contact expires (saturation), q (6 shapes), URI port (4 carriers); reference = exact 64-bit decimal value of the last 19 digits + leading-zero test",
 		"digit strings longer than 40; chunked numeric parsing is covered by C02")
@@ -228,7 +231,8 @@ func checkDefs() map[string]CheckDef {
 			each("H_reset", l(16, 17, 18, 19), l(0), l(3), l(0), l(4)),
 			each("H_reset", l(30, 31, 32, 34, 35, 36), l(0), l(4), l(0), l(4)),
 			each("H_reset", l(5), l(23), l(3), l(24), l(3)),
-			each("H_reset", l(40, 44, 45), l(3, 4, 1), l(3), l(9, 3), l(2))),
+			each("H_reset", l(40, 44, 45), l(3, 4, 1), l(3), l(9, 3), l(2)),
+			each("H_reset", l(44), l(44, 45, 52, 55), l(3), l(3, 4), l(2))),
 		cat(each("H_reset", l(0, 1, 2, 6, 8, 23), l(0), l(5), l(0), l(5)),
 			each("H_reset", l(12, 13, 14, 16, 17, 19, 30, 31, 34, 35), l(0), l(5), l(0), l(4)),
 			each("H_reset", l(40, 44, 45, 46), l(3, 4, 1, 11), l(4), l(9, 3, 5), l(3))),
@@ -239,6 +243,7 @@ func checkDefs() map[string]CheckDef {
 		cat(each("H_C13_msg", l(1, 3, 4, 9, 11, 12), l(3), l(0, 1, -1), l(0, 1, -1), l(0)),
 			each("H_C13_msg", l(3, 11, 12), l(3), l(0, 1), l(0, 1), l(1)),
 			each("H_C13_msg", l(32, 34, 35), l(3), l(0, 1), l(0, 1), l(0, 1)),
+			each("H_C13_msg", l(44, 45, 52, 53, 55), l(3), l(0, 1), l(0, 1), l(0)),
 			each("H_C13_msg", l(16), l(4), l(0, 1, 2), l(0, 1), l(0)),
 			each("H_C13_params", l(6), l(0, 1, 2)), each("H_C13_hdrs", l(6), l(0, 1, 2))),
 		cat(each("H_C13_msg", l(1, 3, 4, 9, 11, 12), l(5), l(0, 1, 2), l(0, 1, 2), l(0)),
@@ -285,9 +290,9 @@ func checkDefs() map[string]CheckDef {
 		"header sets other than the skeleton; more than 8 stored headers")
 
 	add("C20",
-		cat(each("H_C20_prefix", seq(1, 9), l(4)), each("H_C20_prefix", l(8), l(0, 3, 5)), each("H_C20_contains", seq(1, 8)), each("H_C20_cid", seq(1, 5))),
-		cat(each("H_C20_prefix", l(10, 11), l(4)), each("H_C20_contains", l(9, 10)), each("H_C20_cid", l(6))),
-		"IP4Prefix on every byte string of length 1..9 (11), ContainsIP4 1..8 (10), GetCallIDSig flags 1..5 (6) vs. a non-incremental reference (four groups of 1-3 digits <= 255, maximal munch)",
+		cat(each("H_C20_prefix", seq(1, 12), l(4)), each("H_C20_prefix", l(8), l(0, 3, 5)), each("H_C20_contains", seq(1, 12)), each("H_C20_cid", seq(1, 5))),
+		cat(each("H_C20_prefix", l(13, 14, 15), l(4)), each("H_C20_contains", l(13, 14)), each("H_C20_cid", l(6))),
+		"IP4Prefix on every byte string of length 1..12 (15), ContainsIP4 1..12 (14), GetCallIDSig flags 1..5 (6) vs. a non-incremental reference (four groups of 1-3 digits <= 255, maximal munch)",
 		"longer strings")
 	return m
 }
